@@ -91,7 +91,9 @@ structure Good (g : α → List α) (nodes start : List α) (st : St α) : Prop 
   inNodes : ∀ x ∈ st.visited, x ∈ nodes
   closed : ∀ u ∈ st.stack, ∀ w ∈ g u, w ∈ st.visited
   reach : ∀ x ∈ st.visited, ∃ s ∈ start, Reach g s x
-  ord : ∀ u ∈ st.stack, ∀ w ∈ g u, w ≠ u → Before st.stack u w
+  /-- dependency order — the only part that needs the absence of cycles through two distinct vertices -/
+  ord : (∀ a b, (∃ s ∈ start, Reach g s a) → a ≠ b → Reach g a b → Reach g b a → False) →
+    ∀ u ∈ st.stack, ∀ w ∈ g u, w ≠ u → Before st.stack u w
 
 structure Ext (st st' : St α) : Prop where
   vis : ∀ x ∈ st.visited, x ∈ st'.visited
@@ -142,15 +144,13 @@ theorem foldl_spec (f : α → St α → St α) (P : St α → Prop) (ws : List 
 section main
 variable (g : α → List α) (nodes start : List α)
 variable (hclosed : ∀ u ∈ nodes, ∀ w ∈ g u, w ∈ nodes)
--- no cycle through two distinct vertices among the vertices reachable from `start`
-variable (hac : ∀ a b, (∃ s ∈ start, Reach g s a) → a ≠ b → Reach g a b → Reach g b a → False)
 
 /-- loop invariant while exploring the successors of the grey vertex `c` (or at top level: `c = none`) -/
 def LoopInv (n : Nat) (c : Option α) (st : St α) : Prop :=
   Good g nodes start st ∧ n ≥ unv nodes st.visited ∧
     ∀ a, a ∈ st.visited → a ∉ st.stack → ∃ v, c = some v ∧ Reach g a v
 
-include hclosed hac in
+include hclosed in
 theorem dfs_spec (n : Nat) (v : α) (st : St α) (c : Option α)
     (hG : Good g nodes start st) (hvn : v ∈ nodes) (hv : v ∉ st.visited)
     (hr : ∃ s ∈ start, Reach g s v)
@@ -221,8 +221,9 @@ theorem dfs_spec (n : Nat) (v : α) (st : St α) (c : Option α)
       simpa [st0] using this
     have hvs1 : v ∉ st1.stack := ((hgr1 v).mpr ⟨Or.inl rfl, hvs⟩).2
     -- successors of v other than v itself are finished
-    have hsucc : ∀ w ∈ g v, w ≠ v → w ∈ st1.stack := by
-      intro w hw hne
+    have hsucc : (∀ a b, (∃ s ∈ start, Reach g s a) → a ≠ b → Reach g a b → Reach g b a → False) →
+        ∀ w ∈ g v, w ≠ v → w ∈ st1.stack := by
+      intro hac w hw hne
       have hwv : w ∈ st1.visited := m1 w hw
       refine Classical.byContradiction fun hns => ?_
       have := (hgr1 w).mp ⟨hwv, hns⟩
@@ -248,10 +249,10 @@ theorem dfs_spec (n : Nat) (v : α) (st : St α) (c : Option α)
           · exact hG1.closed u hu w hw
         reach := hG1.reach
         ord := by
-          intro u hu w hw hne
+          intro hac u hu w hw hne
           rcases List.mem_cons.mp hu with rfl | hu
-          · exact Before.head (hsucc w hw hne)
-          · exact Before.append_left [v] (hG1.ord u hu w hw hne) }
+          · exact Before.head (hsucc hac w hw hne)
+          · exact Before.append_left [v] (hG1.ord hac u hu w hw hne) }
     · refine ⟨fun x hx => e1.vis x (List.mem_cons_of_mem _ hx), ⟨v :: new, by simp [en, st0]⟩, ?_⟩
       intro x
       simp only [List.mem_cons, not_or]
@@ -264,7 +265,7 @@ theorem dfs_spec (n : Nat) (v : α) (st : St α) (c : Option α)
         have := (hgr1 x).mpr ⟨Or.inr hxv, hxs⟩
         exact ⟨this.1, fun hc => hv (hc ▸ hxv), this.2⟩
 
-include hclosed hac in
+include hclosed in
 theorem toposort_good (fuel : Nat) (hfuel : fuel ≥ nodes.length) (hstart : ∀ s ∈ start, s ∈ nodes) :
     let st := start.foldl (visitStep (dfs g fuel)) ⟨[], []⟩
     Good g nodes start st ∧ (∀ x ∈ st.visited, x ∈ st.stack) ∧ ∀ s ∈ start, s ∈ st.visited := by
@@ -282,7 +283,7 @@ theorem toposort_good (fuel : Nat) (hfuel : fuel ≥ nodes.length) (hstart : ∀
           intro a ha has
           obtain ⟨v', hv', _⟩ := hgs a ha has
           cases hv'
-        obtain ⟨hGn, en, mn⟩ := dfs_spec g nodes start hclosed hac fuel w s none hGs (hstart w hw) hws
+        obtain ⟨hGn, en, mn⟩ := dfs_spec g nodes start hclosed fuel w s none hGs (hstart w hw) hws
           ⟨w, hw, Reach.refl _⟩ hgw hfs
         refine ⟨⟨hGn, Nat.le_trans (unv_mono nodes en.vis) hfs, ?_⟩, en, hGn.sub w mn⟩
         intro a ha has
@@ -294,19 +295,16 @@ theorem toposort_good (fuel : Nat) (hfuel : fuel ≥ nodes.length) (hstart : ∀
   obtain ⟨v', hv', _⟩ := hgray x hx hns
   cases hv'
 
-/-- T1: each vertex at most once. -/
-theorem toposort_nodup (fuel : Nat) (hfuel : fuel ≥ nodes.length) (hstart : ∀ s ∈ start, s ∈ nodes)
-    (hclosed : ∀ u ∈ nodes, ∀ w ∈ g u, w ∈ nodes)
-    (hac : ∀ a b, (∃ s ∈ start, Reach g s a) → a ≠ b → Reach g a b → Reach g b a → False) :
-    (toposort g fuel start).Nodup :=
-  (toposort_good g nodes start hclosed hac fuel hfuel hstart).1.nodup
+/-- T1: each vertex at most once — for every graph, cyclic or not. -/
+theorem toposort_nodup' (fuel : Nat) (hfuel : fuel ≥ nodes.length) (hstart : ∀ s ∈ start, s ∈ nodes)
+    (hclosed : ∀ u ∈ nodes, ∀ w ∈ g u, w ∈ nodes) : (toposort g fuel start).Nodup :=
+  (toposort_good g nodes start hclosed fuel hfuel hstart).1.nodup
 
-/-- T2: the output is exactly the set of vertices reachable from the start set. -/
-theorem toposort_mem_iff (fuel : Nat) (hfuel : fuel ≥ nodes.length) (hstart : ∀ s ∈ start, s ∈ nodes)
-    (hclosed : ∀ u ∈ nodes, ∀ w ∈ g u, w ∈ nodes)
-    (hac : ∀ a b, (∃ s ∈ start, Reach g s a) → a ≠ b → Reach g a b → Reach g b a → False) (x : α) :
+/-- T2: the output is exactly the set of vertices reachable from the start set — for every graph. -/
+theorem toposort_mem_iff' (fuel : Nat) (hfuel : fuel ≥ nodes.length) (hstart : ∀ s ∈ start, s ∈ nodes)
+    (hclosed : ∀ u ∈ nodes, ∀ w ∈ g u, w ∈ nodes) (x : α) :
     x ∈ toposort g fuel start ↔ ∃ s ∈ start, Reach g s x := by
-  obtain ⟨hG, hall, hs⟩ := toposort_good g nodes start hclosed hac fuel hfuel hstart
+  obtain ⟨hG, hall, hs⟩ := toposort_good g nodes start hclosed fuel hfuel hstart
   constructor
   · intro hx
     exact hG.reach x (hG.sub x hx)
@@ -317,13 +315,24 @@ theorem toposort_mem_iff (fuel : Nat) (hfuel : fuel ≥ nodes.length) (hstart : 
     | refl => exact this
     | step hab _ ih => exact ih (hall _ (hG.closed _ this _ hab))
 
+/-- T1 (signature kept for earlier callers). -/
+theorem toposort_nodup (fuel : Nat) (hfuel : fuel ≥ nodes.length) (hstart : ∀ s ∈ start, s ∈ nodes)
+    (hclosed : ∀ u ∈ nodes, ∀ w ∈ g u, w ∈ nodes)
+    (_hac : ∀ a b, (∃ s ∈ start, Reach g s a) → a ≠ b → Reach g a b → Reach g b a → False) :
+    (toposort g fuel start).Nodup := toposort_nodup' g nodes start fuel hfuel hstart hclosed
+
+theorem toposort_mem_iff (fuel : Nat) (hfuel : fuel ≥ nodes.length) (hstart : ∀ s ∈ start, s ∈ nodes)
+    (hclosed : ∀ u ∈ nodes, ∀ w ∈ g u, w ∈ nodes)
+    (_hac : ∀ a b, (∃ s ∈ start, Reach g s a) → a ≠ b → Reach g a b → Reach g b a → False) (x : α) :
+    x ∈ toposort g fuel start ↔ ∃ s ∈ start, Reach g s x := toposort_mem_iff' g nodes start fuel hfuel hstart hclosed x
+
 /-- T3: dependency order. -/
 theorem toposort_before (fuel : Nat) (hfuel : fuel ≥ nodes.length) (hstart : ∀ s ∈ start, s ∈ nodes)
     (hclosed : ∀ u ∈ nodes, ∀ w ∈ g u, w ∈ nodes)
     (hac : ∀ a b, (∃ s ∈ start, Reach g s a) → a ≠ b → Reach g a b → Reach g b a → False)
     (u w : α) (hu : u ∈ toposort g fuel start) (hw : w ∈ g u) (hne : w ≠ u) :
     Before (toposort g fuel start) u w :=
-  (toposort_good g nodes start hclosed hac fuel hfuel hstart).1.ord u hu w hw hne
+  (toposort_good g nodes start hclosed fuel hfuel hstart).1.ord hac u hu w hw hne
 
 end main
 end Dfs3
